@@ -222,3 +222,46 @@ Theorem anim_single_frame_drops_metadata :
   out = wit_anim_simple /\ spec_get_chunk out FourCCEXIF = None /\
   anim_close true 1 true true wit_anim_with_meta (Some wit_anim_simple) = wit_anim_with_meta.
 Proof. vm_compute. repeat split; reflexivity. Qed.
+
+(** ** Encode's lossless container choice *)
+(** Streaming fast path (no metadata) or buffered writeRIFF: the same function of
+    the bitstream and the blobs as [write_riff] with no ALPH payload. *)
+Theorem encode_lossless_container_eq bs w h icc exif xmp :
+  len bs < 4294967296 - 21 ->
+  encode_lossless_container bs w h icc exif xmp = write_riff FourCCVP8L bs [] w h icc exif xmp.
+Proof.
+  intros Hl. unfold encode_lossless_container.
+  destruct ((len icc >? 0) || (len exif >? 0) || (len xmp >? 0)) eqn:E; [reflexivity|].
+  unfold write_riff. change (len (@nil Z) >? 0) with false. cbn [orb]. rewrite E.
+  apply streaming_eq_buffered. exact Hl.
+Qed.
+
+(** ** Alpha flag of this package's lossy files (C16, alpha-flag clause) *)
+(** For a file written by [write_riff]: if the Decode glue attaches a separately
+    decoded alpha plane to the picture (the only way a lossy picture can have a
+    non-opaque pixel), then GetFeatures reports HasAlpha.  For VP8L the flag is the
+    header's alpha bit, which is a property of the lossless encoder (evaluated by
+    harness/c16 on encoder outputs). *)
+Theorem alpha_flag_sound_lossy :
+  forall (Pix : Type) (ld ll : list Z -> Res (Z * Z * Pix)) (ad : list Z -> Z -> Z -> Res Pix)
+         fourcc bs alpha w h icc exif xmp a fx file img,
+    writer_inputs_ok fourcc bs alpha w h icc exif xmp a -> len icc <= MaxMetadataSize ->
+    write_riff fourcc bs alpha w h icc exif xmp = Ok file ->
+    decode_bytes ld ll ad fx file = Ok img -> iAlpha img <> None ->
+    exists g, get_features fx file = Ok g /\ gHasAlpha g = true.
+Proof.
+  intros Pix ld ll ad fourcc bs alpha w h icc exif xmp a fx file img Hin Hicc Hw Hd Hal.
+  destruct (metadata_roundtrip _ _ _ _ _ _ _ _ _ Hin) as (file' & Hw' & _ & _ & _ & _ & _ & _ & _ & Hp).
+  rewrite Hw in Hw'. injection Hw' as <-.
+  destruct (Hp Hicc fx) as (r & P & F & _ & _ & A & _).
+  unfold get_features, decode_bytes, parse in *. rewrite P in *. cbn [bind fst] in *.
+  eexists. split; [reflexivity|]. unfold features_of. cbn [gHasAlpha]. rewrite A.
+  rewrite F in Hd. unfold decode_frame, expected_frame in Hd.
+  destruct (fourcc =? FourCCVP8L); cbn [frLossless frPayload frAlpha] in Hd.
+  - destruct (ll bs) as [[[w' h'] px]|e|]; cbn [bind] in Hd; try discriminate.
+    injection Hd as <-. cbn [iAlpha] in Hal. congruence.
+  - unfold decode_lossy, opt_blob, alpha_len in Hd.
+    destruct (ld bs) as [[[w' h'] px]|e|]; cbn [bind] in Hd; try discriminate.
+    destruct (len alpha >? 0) eqn:E; [reflexivity|].
+    change (0 >? 0) with false in Hd. injection Hd as <-. cbn [iAlpha] in Hal. congruence.
+Qed.
